@@ -15,5 +15,6 @@ INVARIANT ChannelsDeliveryIndependent
 INVARIANT EventsDeliveryIndependent
 INVARIANT MessagesDeliveryIndependent
 INVARIANT ShallowReorgRetracts
+INVARIANT KnownPreimageHtlcIsClaimed
 POSTCONDITION TraceAccepted
 CHECK_DEADLOCK FALSE
